@@ -63,14 +63,15 @@ CLAIM = {
 }
 TRUSTED = [
     "C15: probe component + recording wrapper around Interpolation.__call__ (reads the `year` column it is handed, "
-    "never alters it); sim._clock.time and sim._population.get_view read from outside to learn the clock date and to "
-    "untrack simulants; interning of category strings in sorted order; scaling of floats to integers (eighths; "
+    "never alters it); clock date and untracking through the probe's own builder.time.clock() / "
+    "builder.population.get_view (no private attribute of /repo/src is read); interning of category strings in sorted order; scaling of floats to integers (eighths; "
     "eighths*1461 shifted by a constant for `year`)",
 ]
 
 KEYCOLS = ["ka", "kb"]
 PARCOLS = ["pa", "pb", "pc"]
-CATS = ["c0", "c1", "c2", "c9"]          # sorted; c9 never occurs in generated data
+CATS = ["c0", "c1", "c2", "c9", None]    # sorted; c9 never occurs in generated data; index 4 = a missing value (NaN)
+NANKEY = 4
 DEN = 8
 YSCALE = 1461 * DEN
 YBASE = 2000                    # years are emitted relative to it (smaller literals; comparisons are translation-invariant)
@@ -106,6 +107,8 @@ def make_probe():
             return KEYCOLS + PARCOLS
 
         def setup(self, builder):
+            self.clock = builder.time.clock()                       # public: the current simulation time
+            self.tracked_view = builder.population.get_view(["tracked"])
             for t in self.case["tables"]:
                 try:
                     self.built.append((build_one(builder, t), None))
@@ -118,7 +121,9 @@ def make_probe():
             for c in KEYCOLS:
                 cols[c] = pd.Series([CATS[i] for i in pop[c]], index=pop_data.index, dtype="str")
             for c in PARCOLS:
-                cols[c] = pd.Series([v / DEN for v in pop[c]], index=pop_data.index, dtype="float64")
+                vals = [float("nan") if v is None else v if isinstance(v, str) else v / DEN for v in pop[c]]
+                cols[c] = pd.Series(vals, index=pop_data.index,
+                                    dtype="object" if any(isinstance(v, str) for v in vals) else "float64")
             self.population_view.update(pd.DataFrame(cols, index=pop_data.index))
 
         def on_time_step(self, event):
@@ -200,13 +205,12 @@ def run_context(case):
     sim.setup()
     sim.initialize_simulants()
     if case.get("untracked"):
-        view = sim._population.get_view(["tracked"])
-        view.update(pd.Series(False, index=pd.Index(case["untracked"], dtype="int64"), name="tracked"))
+        probe.tracked_view.update(pd.Series(False, index=pd.Index(case["untracked"], dtype="int64"), name="tracked"))
     calls = [[] for _ in case["tables"]]
     seen_steps = []
 
     def do_calls(where):
-        now = sim._clock.time
+        now = probe.clock()
         for ti, (tab, err) in enumerate(probe.built):
             if tab is None:
                 continue
@@ -289,11 +293,25 @@ def pscale(pname):
 
 
 def sim_params(case, t, i):
-    return [0 if p == "year" else case["pop"][p][i] for p in t["params"]]
+    return [0 if p == "year" or not isinstance(case["pop"][p][i], int) else case["pop"][p][i] for p in t["params"]]
+
+
+def sim_bads(case, t, i):
+    """positions of the parameters whose attribute is not a number (a string)"""
+    return [j for j, p in enumerate(t["params"]) if p != "year" and isinstance(case["pop"][p][i], str)]
+
+
+def sim_nans(case, t, i):
+    """positions of the parameters whose attribute is NaN"""
+    return [j for j, p in enumerate(t["params"]) if p != "year" and case["pop"][p][i] is None]
 
 
 def sim_keys(case, t, i):
     return [case["pop"][kc][i] for kc in t["keys"]]
+
+
+def has_missing(case, t, i):
+    return NANKEY in sim_keys(case, t, i) or bool(sim_nans(case, t, i))
 
 
 def edge(p, b):
@@ -309,7 +327,9 @@ def coq_rows(t):
 
 def coq_pop(case, t):
     n = len(case["pop"]["ka"])
-    return clist(cpair(cz(i), cpair(czlist(sim_keys(case, t, i)), czlist(sim_params(case, t, i)))) for i in range(n))
+    return clist(cpair(cz(i), cpair(czlist(-1 if x == NANKEY else x for x in sim_keys(case, t, i)),
+                                    czlist(sim_params(case, t, i)), czlist(sim_nans(case, t, i)),
+                                    czlist(sim_bads(case, t, i)))) for i in range(n))
 
 
 def coq_frame(rows):
@@ -404,6 +424,19 @@ def oracle_binned(case, t, rec, groups):
             return False, (f"year: the table used year value {float(yf):.5f} while the clock stands on day {yday} of {y} "
                            f"(current simulation year is in [{y}, {y + 1}))")
         yx = yf * DEN
+    if any(sim_bads(case, t, i) for i in rec["idx"]):
+        return (rec["code"] == 1), "a simulant with a non-numeric parameter attribute was not rejected"
+    if any(has_missing(case, t, i) for i in rec["idx"]):
+        # missing attributes (NaN parameter / missing key): what the property wants is a rejection or a defined row; what
+        # the code does (last bin / a row of NaN, silently) is candidate finding F-NAN, awaiting triage - the model
+        # transcribes it and Coq compares it; the direct oracle checks only the simulants without missing values
+        sub = dict(rec, idx=[i for i in rec["idx"] if not has_missing(case, t, i)])
+        if rec["code"] == 0:
+            if [r[0] for r in rec["rows"]] != list(rec["idx"]):
+                return False, f"result labels {[r[0] for r in rec['rows']]} differ from the request {rec['idx']}"
+            sub["rows"] = [r for r in rec["rows"] if not has_missing(case, t, r[0])]
+            return oracle_binned(case, t, sub, groups)
+        return True, ""
     must_reject, want = False, []
     for i in rec["idx"]:
         G = groups.get(tuple(sim_keys(case, t, i)))
@@ -441,6 +474,8 @@ def oracle_contains(case, t, rec):
             return False, f"simulant {i}: no row returned without extrapolation on validated data"
         G = [r for r in t["rows"] if r["k"] == sim_keys(case, t, i)]
         cands = [r for r in G if list(r["v"]) == list(vals)]
+        if has_missing(case, t, i) or sim_bads(case, t, i):
+            continue
         xs = [yx if p == "year" else Fraction(case["pop"][p][i]) for p in t["params"]]
         if any(x is None for x in xs):
             continue
@@ -483,6 +518,13 @@ def run_binned(case):
             tags.add("call_ok" if rec["code"] == 0 else f"call_{rec.get('err')}")
             if len(set(rec["idx"])) < len(rec["idx"]):
                 tags.add("call_duplicate_labels" + ("_ok" if rec["code"] == 0 else "_rejected"))
+            nn = len(case["pop"]["ka"])
+            if any(0 <= i < nn and sim_bads(case, t, i) for i in rec["idx"]):
+                tags.add("call_non_numeric" + ("_ok" if rec["code"] == 0 else "_rejected"))
+            if any(0 <= i < nn and sim_nans(case, t, i) for i in rec["idx"]):
+                tags.add("call_nan_parameter" + ("_ok" if rec["code"] == 0 else "_rejected"))
+            if any(0 <= i < nn and NANKEY in sim_keys(case, t, i) for i in rec["idx"]):
+                tags.add("call_missing_key" + ("_ok" if rec["code"] == 0 else "_rejected"))
             if rec["code"] == 0 and any(v is None for _, v in rec["rows"]):
                 tags.add("call_nan_row")
             if groups is not None:
@@ -632,6 +674,21 @@ def gen_population(rng, tables, n, ext):
             if len(e) < 2:
                 e = [e[0], e[0] + 8]
             pop[pc].append(candidates(e, out_prob, rng))
+    if rng.random() < 0.18:                      # missing attributes: NaN parameter values and / or missing key values
+        mode = rng.choice(["param", "param", "key", "both", "allnan", "bad", "bad"])
+        for i in range(n):
+            if mode in ("param", "both") and rng.random() < 0.3:
+                pop[rng.choice(PARCOLS)][i] = None
+            if mode in ("key", "both") and rng.random() < 0.25:
+                pop[rng.choice(KEYCOLS)][i] = NANKEY
+        if mode == "bad":                       # an object column holding strings next to numbers
+            pc = rng.choice(PARCOLS)
+            for i in range(n):
+                if rng.random() < 0.35:
+                    pop[pc][i] = "x"
+        if mode == "allnan":
+            pc = rng.choice(PARCOLS)
+            pop[pc] = [None] * n
     return pop
 
 
@@ -664,7 +721,7 @@ def gen_requests(rng, n, case_tables, pop, ext):
                         continue
                     lo = min(r["b"][j][0] for r in G)
                     hi = max(r["b"][j][1] for r in G)
-                    good &= lo <= pop[p][i] < hi
+                    good &= isinstance(pop[p][i], int) and lo <= pop[p][i] < hi
             if good:
                 inside.append(i)
         if inside:
@@ -853,6 +910,9 @@ def run_cat(case):
             if not unique:
                 continue
             known = all(0 <= i < n for i in rec["idx"])
+            if known and any(NANKEY in sim_keys(case, t, i) for i in rec["idx"]):
+                tags.add("call_missing_key")
+                continue                     # candidate finding F-NAN (a row of NaN, silently): compared by Coq only
             if not known or any(tuple(sim_keys(case, t, i)) not in keyrows for i in rec["idx"]):
                 if rec["code"] != 1 and ok:
                     ok, msg = False, f"idx={rec['idx']}: a simulant without a matching data row was not rejected"
@@ -934,20 +994,52 @@ def _load_corpus(stream):
     return out
 
 
+def shrink_case(case):
+    """Smaller variants of a lookup case: drop a table, a request, half of a request, the last simulant, the steps, the
+    untracking, one data row (the oracle decides whether the failure survives)."""
+    import copy
+    if len(case["tables"]) > 1:
+        for i in range(len(case["tables"])):
+            c = copy.deepcopy(case); del c["tables"][i]; yield c
+    for i, req in enumerate(case["requests"]):
+        if len(case["requests"]) > 1:
+            c = copy.deepcopy(case); del c["requests"][i]
+            c["rq_later"] = min(c.get("rq_later", 0), len(c["requests"]) - 1); yield c
+        if len(req) > 1:
+            c = copy.deepcopy(case); c["requests"][i] = req[: len(req) // 2]; yield c
+            c = copy.deepcopy(case); c["requests"][i] = req[len(req) // 2:]; yield c
+    if case["nsteps"] > 0:
+        c = copy.deepcopy(case); c["nsteps"] = 0; c["in_event"] = False; yield c
+    if case.get("untracked"):
+        c = copy.deepcopy(case); c["untracked"] = []; yield c
+    n = len(case["pop"]["ka"])
+    if n > 1:
+        c = copy.deepcopy(case)
+        for col in c["pop"]:
+            c["pop"][col] = c["pop"][col][:-1]
+        c["requests"] = [[i for i in r if i != n - 1] for r in c["requests"]]
+        c["untracked"] = [i for i in c.get("untracked", []) if i != n - 1]
+        yield c
+    for ti, t in enumerate(case["tables"]):
+        if t["kind"] in ("binned", "cat") and len(t["rows"]) > 1:
+            for ri in range(len(t["rows"])):
+                c = copy.deepcopy(case); del c["tables"][ti]["rows"][ri]; yield c
+
+
 def streams(tier):
     imp = "From Viv Require Import Common Lookup."
     return [
         Stream(name="interp", imports=imp, check="check_interp", gen=gen_interp, run=run_binned,
-               n_quick=110, n_thorough=700, corpus=lambda: _load_corpus("interp"), finding_of=finding_binned,
+               n_quick=110, n_thorough=700, shrink=shrink_case, corpus=lambda: _load_corpus("interp"), finding_of=finding_binned,
                doc="well-formed binned tables in real contexts"),
         Stream(name="malformed", imports=imp, check="check_interp", gen=gen_malformed, run=run_binned,
-               n_quick=90, n_thorough=540, corpus=lambda: _load_corpus("malformed"), finding_of=finding_binned,
+               n_quick=90, n_thorough=540, shrink=shrink_case, corpus=lambda: _load_corpus("malformed"), finding_of=finding_binned,
                doc="binned tables with injected defects: validation and raw merge semantics"),
         Stream(name="categorical", imports=imp, check="check_cat", gen=gen_cat, run=run_cat,
-               n_quick=40, n_thorough=250, corpus=lambda: _load_corpus("categorical")),
+               n_quick=40, n_thorough=250, shrink=shrink_case, corpus=lambda: _load_corpus("categorical")),
         Stream(name="scalar", imports=imp, check="check_scalar", gen=gen_scalar, run=run_scalar,
-               n_quick=15, n_thorough=90, corpus=lambda: _load_corpus("scalar")),
+               n_quick=15, n_thorough=90, shrink=shrink_case, corpus=lambda: _load_corpus("scalar")),
         Stream(name="leapday", imports=imp, check="check_interp", gen=gen_leapday, run=run_binned,
-               n_quick=8, n_thorough=48, corpus=lambda: _load_corpus("leapday"), finding_of=finding_binned,
+               n_quick=8, n_thorough=48, shrink=shrink_case, corpus=lambda: _load_corpus("leapday"), finding_of=finding_binned,
                doc="year tables with the clock on Dec 31 of a leap year (finding F-N)"),
     ]
